@@ -20,7 +20,7 @@ ASSUMPTIONS = [
     "that copy.deepcopy yields disjoint objects is Python runtime behaviour: carried by the identity-disjointness test on real objects (test, not theorem)",
     "the model's granularity is the graph cell of an explicit object store",
 ]
-PARTIAL = ["aliasing half (deep copy really disjoint): differential test on real objects, not a theorem"]
+PARTIAL = ["that copy.deepcopy yields disjoint Python objects: identity-disjointness test on real objects, not a theorem (the object-store theorems certify which cell each call reads and writes)"]
 BUDGET_S = {"quick": 150, "thorough": 1500}
 ORDERS = list(itertools.permutations(["arc", "path", "seq"]))
 
